@@ -27,6 +27,7 @@ Directives (one per line, `//@ ` prefix; payload = the following non-directive l
   //@ end
 """
 import hashlib
+import json
 import os
 import re
 import shlex
@@ -553,6 +554,18 @@ def pinned_tokens():
 PINNED_LOOPS = None
 
 
+_PINNED_SQL = None
+def pinned_sql():
+    global _PINNED_SQL
+    if _PINNED_SQL is None:
+        p = os.path.join(os.path.dirname(os.path.dirname(os.path.abspath(__file__))), 'contracts', 'pinned_sql.json')
+        try:
+            _PINNED_SQL = json.load(open(p))
+        except Exception:
+            _PINNED_SQL = {}
+    return _PINNED_SQL
+
+
 _PINNED_CUTS = None
 def pinned_cuts():
     global _PINNED_CUTS
@@ -733,6 +746,15 @@ def weave_extract(ub, ex, rf, repo_root):
         body_open = find_fn_body(m)
     pin_key = '%s::%s' % (ex.file, ex.path)
     rec['tokens'] = tokens_of(src)
+    # the SQL text inside an extracted function is ASSUMED (string contents are masked out of the verified text): it is pinned, and a
+    # function whose SQL no longer has the pinned text leaves its unit undecided when nothing else fails (never an alarm, never trusted)
+    sql = [' '.join(x.split()) for x in re.findall(r'"((?:[^"\\\\]|\\\\.)*)"', src, re.S) if re.search(r'\b(SELECT|INSERT|UPDATE|DELETE|CREATE|WHERE)\b', x)]
+    rec['sql_hash'] = hashlib.sha256('\x00'.join(sql).encode()).hexdigest() if sql else None
+    psql = pinned_sql().get('%s::%s' % (pin_key, alias))
+    if psql is not None and rec['sql_hash'] != psql:
+        if not hasattr(ub, 'left_out'):
+            ub.left_out = []
+        ub.left_out.append({'alias': alias, 'reason': 'the SQL text in this function (assumed, pinned) has changed'})
     pinned = pinned_tokens().get(pin_key)
     deletion_only = pinned is not None and rec['tokens'] != pinned and is_subsequence(rec['tokens'], pinned)
     rec['lost_anchors'] = []
